@@ -33,6 +33,7 @@ import (
 	"testing"
 	"time"
 
+	"mosn.io/mosn/pkg/types"
 	"mosn.io/mosn/pkg/verifrt/vfake"
 	"mosn.io/mosn/pkg/verifrt/vreport"
 	"mosn.io/mosn/pkg/verifrt/vrt"
@@ -114,6 +115,12 @@ func DoomedScenarios(goAwayInReply bool) []Scenario {
 // newStreamSched is NewStream + request under the scheduler: the connection is the one the pool
 // recorded in the request context; the stream is registered in the model as soon as NewStream returned.
 func (w *world) newStreamSched() string {
+	// multiplexed connections: a lease is judged against the go-aways the pool had been told of
+	// completely when this NewStream started (a go-away still being delivered may legitimately lose the race)
+	goAwayKnown := map[*connT]bool{}
+	for _, c := range w.conns {
+		goAwayKnown[c] = c.goAwayDelivered
+	}
 	ctx := w.d.NewCtx()
 	ready, err := w.d.Prepare(w.pool, ctx)
 	w.syncConns()
@@ -156,7 +163,7 @@ func (w *world) newStreamSched() string {
 	// I2 under concurrency: a connection that was told to close while it carried a stream (local
 	// reset / timeout, go-away) could not be leased by anybody else at that moment, so a lease that
 	// the model sees afterwards is a reuse of a doomed connection in every interleaving.
-	if s.c.doomed && !w.shutdown {
+	if s.c.doomed && !w.shutdown && (w.d.Kind() == PingPong || goAwayKnown[s.c]) {
 		for _, t := range s.c.taints {
 			w.lease = append(w.lease, finding{"pool=" + pn + " I2 connection leased again after " + t,
 				fmt.Sprintf("NewStream put a stream on connection %d, which was told to close (%s) while it carried a stream: it had to be closed, not handed out again", s.c.idx, t)})
@@ -170,6 +177,13 @@ func (w *world) newStreamSched() string {
 	sender.AppendHeaders(ctx, w.d.RequestHeaders(ctx), true)
 	for _, wr := range s.c.fc.Writes[before:] {
 		s.req = append(s.req, wr...)
+	}
+	if rq, ok := w.d.(interface {
+		ReqOf(sender types.StreamSender, written []byte) []byte
+	}); ok && len(s.req) > 0 {
+		// multiplexed connection: the writes of concurrent streams interleave, the driver names the
+		// stream's own request from the sender
+		s.req = rq.ReqOf(sender, s.req)
 	}
 	if len(s.req) == 0 {
 		// the connection was closed under the lease: the stream layer resets the stream itself
@@ -231,7 +245,7 @@ func schedBody(d Driver, sc Scenario, obs *schedObs) {
 						outs[i] = append(outs[i], name+"->skipped")
 						continue
 					}
-				case "rclose", "lclose":
+				case "rclose", "lclose", "goaway":
 					if arg >= len(w.conns) || !w.conns[arg].open() {
 						outs[i] = append(outs[i], name+"->skipped")
 						continue
